@@ -103,18 +103,6 @@ theorem sender_on_kernel_events_obey (P : Sender ℚ → Act ℚ → Sender ℚ 
   obtain ⟨_, hi, acts, outs, h3, h4, h5⟩ := step_events hs fuel hreach hstep
   exact ⟨acts, outs, h3, h4, (along_of_run hP acts _ _ outs hi h5 h3).1⟩
 
-/-- an accepted `ack` action is not stamped in the future -/
-theorem ackOk_of_step {S S' : Sender ℚ} {x : AckIn ℚ} {o : List (Tx ℚ)} (hx : ActOk (.ack x)) (h : S.step (.ack x) = .ok S' o) :
-    AckOk S x := by
-  refine ⟨hx, ?_⟩
-  by_contra hc
-  have : S.step (.ack x) = .reject .fromFuture := by
-    show S.ackStep x = _
-    unfold Sender.ackStep
-    have h1 : ¬ x.fid < 10000 := Nat.not_lt.mpr hx
-    simp only [h1, if_false, not_le.mp hc, if_true]
-  rw [this] at h; cases h
-
 /-- **C17 `send_in_window` on kernel runs**: in every kernel step, the segments a resumption of `run` hands to `out` are
 `next_seq, next_seq + MSS, …`, MSS-sized, new, stamped with the instant of the resumption, and each is sent with
 `seq + MSS ≤ last_ack + cwnd` - inside the congestion window of that moment (`C17.send_in_window_burst` transferred). -/
@@ -294,5 +282,26 @@ example : summary (flowCfg 4) 100 fastRetransmit =
     some (true, [(0, 0), (512, 0), (1024, 0), (1536, 0), (0, 1/5)], 2048, 1536) := by decide +kernel
 
 example : refineCheck (flowCfg 4) 100 fastRetransmit 0 = some 21 := by decide +kernel
+
+/-- the hypotheses `Setup` of the theorems are met by the three runs above (Reno with `cwnd ≥ mss`, `rtt_estimate = 1`, flows of
+3 and 4 segments, scripts with non-negative gaps whose ACKs are stamped in the past of their delivery) … -/
+example : Setup (flowCfg 3) (reno 512) 1 [(1/5, ack 512 0 0), (1/5, ack 1024 512 (1/5)), (0, ack 1536 1024 (1/5))] := by
+  refine ⟨⟨by norm_num [reno], by norm_num [reno], by norm_num [reno], fun h => by cases h⟩, by norm_num, by decide, by decide,
+    ⟨3, by decide⟩, ?_⟩
+  simp only [ScriptOK, ack]
+  norm_num
+
+example : Setup (flowCfg 4) (reno 2048) 1 [(1/5, ack 0 512 0), (0, ack 0 1024 0), (0, ack 0 1536 0), (1/5, ack 2048 0 (1/5))] := by
+  refine ⟨⟨by norm_num [reno], by norm_num [reno], by norm_num [reno], fun h => by cases h⟩, by norm_num, by decide, by decide,
+    ⟨4, by decide⟩, ?_⟩
+  simp only [ScriptOK, ack]
+  norm_num
+
+/-- … and by a CUBIC sender with the constructor defaults of `TCPCubic()` -/
+example : Setup { kind := .cubic, mss := 512, size := 5120 } (TCPCubic.defaults : CCState ℚ) (1/5) [(3/10, ack 512 0 0)] := by
+  refine ⟨?_, by norm_num, by decide, by decide, ⟨10, by decide⟩, ?_⟩
+  · refine ⟨?_, ?_, ?_, fun _ => ⟨?_, ?_⟩⟩ <;> simp [TCPCubic.defaults] <;> norm_num
+  · simp only [ScriptOK, ack]
+    norm_num
 
 end C16K
